@@ -709,6 +709,15 @@ func genWiCase(g *Rng, cfg WiCfg, k int, gidx int) WiCase {
 	if g.Chance(50) {
 		r.Headers = append(r.Headers, [2]string{"User-Agent", "wire-client/1.0"})
 	}
+	// what a browser adds: a CORS preflight, a cross-origin request, conditional and range requests
+	if r.Method == "OPTIONS" && g.Chance(70) {
+		r.Headers = append(r.Headers, [2]string{"Origin", "https://app.example"}, [2]string{"Access-Control-Request-Method", []string{"POST", "DELETE", "GET"}[g.Intn(3)]})
+		if g.Chance(50) {
+			r.Headers = append(r.Headers, [2]string{"Access-Control-Request-Headers", "x-api-key, content-type"})
+		}
+	} else if g.Chance(12) {
+		r.Headers = append(r.Headers, [][2]string{{"Origin", "https://app.example"}, {"Range", "bytes=0-9"}, {"If-Modified-Since", "Wed, 21 Oct 2015 07:28:00 GMT"}, {"Upgrade-Insecure-Requests", "1"}, {"Sec-Fetch-Mode", "cors"}}[g.Intn(5)])
+	}
 	// hop-by-hop material
 	if g.Chance(25) {
 		r.Headers = append(r.Headers, [2]string{"Connection", []string{"close, X-Hop", "close", "X-Hop, close", "close, x-hop,Keep-Alive"}[g.Intn(4)]})
@@ -847,6 +856,8 @@ func wiCorpus() []wiGroup {
 		mk(lim, "normal", WiReq{Method: "GET", Path: "/noauth", Headers: [][2]string{xf(11)}}, ok),
 		mk(lim, "normal", WiReq{Method: "POST", Path: "/big", Headers: [][2]string{xf(12), {"X-API-Key", "k1"}}, BodyLen: 17, Framing: "cl"}, ok),
 		mk(lim, "normal", WiReq{Method: "GET", Path: "/biggeT", Headers: [][2]string{xf(15), {"X-API-Key", "k1"}}, BodyLen: 17, Framing: "cl"}, ok),
+		mk(lim, "normal", WiReq{Method: "OPTIONS", Path: "/preflight", Headers: [][2]string{xf(17), {"Origin", "https://app.example"}, {"Access-Control-Request-Method", "POST"}}}, ok),
+		mk(lim, "normal", WiReq{Method: "OPTIONS", Path: "/preflight2", Headers: [][2]string{xf(18), {"Origin", "https://app.example"}, {"Access-Control-Request-Method", "POST"}, {"X-API-Key", "wrong"}}}, ok),
 		mk(lim, "normal", WiReq{Method: "OPTIONS", Path: "/bigopt", Headers: [][2]string{xf(16), {"X-API-Key", "k1"}}, BodyLen: 4000, Framing: "cl"}, ok),
 		mk(lim, "limited", WiReq{Method: "GET", Path: "/lim", Headers: [][2]string{xf(13), {"X-API-Key", "k1"}, {"X-Request-ID", "mine"}}}, ok),
 		mk(lim, "ejected", WiReq{Method: "GET", Path: "/ej", Headers: [][2]string{xf(14), {"X-API-Key", "k1"}}}, ok),
